@@ -1461,6 +1461,12 @@ func (app *App) performSwitchover(clusterState map[string]*nodestate.NodeState, 
 
 	// update lost servers list, it may change during catchup
 	clusterState = app.getClusterStateFromDB()
+	for _, host := range activeNodesWithOldMaster {
+		// see above: a listed host that is not registered is unreachable
+		if clusterState[host] == nil {
+			clusterState[host] = new(nodestate.NodeState)
+		}
+	}
 	if !clusterState[newMaster].PingOk {
 		return fmt.Errorf("new master %s suddenly became not available during switchover", newMaster)
 	}
